@@ -41,7 +41,7 @@ CHECKS = {
                         "integer-valued delays in the lockstep histories; dyadic rationals in the kernel differential"],
     },
     "C06": {
-        "extra_props": ["Props/C06_machine.v", "Props/MapFut_E.v", "Props/C06_src.v"],
+        "extra_props": ["Props/C06_machine.v", "Props/MapFut_E.v", "Props/C06_src.v", "Props/MapFut_E2.v", "Props/Comb_G.v", "Props/C07_more.v"],
         "modules": ["p_c06r", "p_c06m", "p_c06p", "p_c06z", "p_c06b", "p_c06t"],
         "rule": "p_c06t: the Throttle lockstep family (C07) with the cancel verdicts (a queued future whose cancel() returned True is never handed over); p_c06p / p_c06z / p_c06b: the lockstep families of C08 (cancel() of poll futures: cancel function, veto, deregistration), C15 and C14 (cancelling the output of f_zip / f_or / f_and with inputs pending, running, done, duplicated) with the cancel-related verdicts of their monitors; retry: seeded scenarios as C05 plus 0-2 cancel() calls per future at random virtual delays / after k delegate "
                 "submissions, from separate threads; every history replayed on Model/Retry.v; distinct = distinct event traces; "
@@ -143,7 +143,7 @@ CHECKS = {
         "assumptions": ["PARTIAL: the lock-order theorem is proved for arbitrary lock programs; that the library's composed lock programs respect one order (outside G10) is decided by the explored schedules, not proved"],
     },
     "C03": {
-        "extra_props": ["Props/MapFut_E.v", "Props/C03_src.v"],
+        "extra_props": ["Props/MapFut_E.v", "Props/C03_src.v", "Props/MapFut_E2.v", "Props/Comb_G.v", "Props/C03_retry.v", "Props/C07_more.v", "Props/C03_poll.v"],
         "modules": ["p_c03", "p_c03t", "p_c03h", "p_c03p", "p_c03r", "p_c03m", "p_c03c", "p_c03z"],
         "rule": "p_c03m / p_c03c / p_c03z: the lockstep families of C13, C14, C15 (MapFuture / FlatMapFuture, f_or / f_and, f_zip over environment futures) with the lost-output verdicts of their monitors; p_c03t / p_c03h / p_c03p / p_c03r: the lockstep scenario families of C09 / C07 / C08 / C05 (mixed timeouts on one executor, delegate completions against the hand-over thread's check/wait/clear, registrations and notify() against the poll thread's, attempts finishing against the submit thread's) replayed on the component machines, with the lost-future / late verdicts of their monitors; p_c03: seeded scenarios on real stacks (depth 1-4, sync / real thread pool) with a virtual clock: callables that succeed, fail "
                 "(retries with back-off), block until t=2, futures cancelled through the returned future at t=0/1/2, small (3) or "
@@ -154,7 +154,7 @@ CHECKS = {
         "assumptions": ["the wake-up protocol is proved generically (EventLoop.v); that each worker loop is an instance is validated by the lockstep machines (Retry) and the virtual-time bound"],
     },
     "C20": {
-        "extra_props": ["Props/C20_src.v"],
+        "extra_props": ["Props/C20_src.v", "Props/MapFut_M.v"],
         "modules": ["p_c20", "p_c20q"],
         "rule": "p_c20q: the same stacks with every RetryExecutor._jobs / ThrottleExecutor._to_submit replaced by a logging container, the executor locks named and "
                 "every RETRY_QUEUE / THROTTLE_QUEUE update observed in the stand-in registry; the projection of each history onto (lock acquire/release, append, "
